@@ -478,5 +478,10 @@ pub fn walk<'a>(stmts: &'a [Stmt], f: &mut dyn FnMut(&'a Stmt)) {
 
 /// Does the statement list contain any statement with executable code (for TRON)?
 pub fn has_code(s: &Stmt) -> bool {
-    !matches!(s, Stmt::Rem { .. } | Stmt::Data(_) | Stmt::Empty)
+    match s {
+        Stmt::Rem { .. } | Stmt::Data(_) | Stmt::Empty => false,
+        // `PRINT;` prints nothing at all, not even the newline
+        Stmt::Print(items) => items.is_empty() || items.iter().any(|i| !matches!(i, PItem::Semi)),
+        _ => true,
+    }
 }
